@@ -133,6 +133,33 @@ def run(ck):
               "the result is the sum of the shifted limbs" if adds and not bitwise else
               "the limbs are combined with %s: a carry out of the low chunk (possible after aggregation) is lost or overlaps the next limb" % (bitwise or "something other than addition"), g.loc())
 
+    # c3. aggregation is the homomorphic sum of BOTH operands on every path: every value `aggregate` (and Cipher::combine)
+    #     can return derives from both of its arguments (a shortcut that returns one operand unchanged drops the other's
+    #     value unless that one is the identity encryption in both components)
+    for pth, want in ((CB + "::encrypted_transfers::aggregate", r"::combine$"),
+                      (CB + "::elgamal::cipher::Cipher::<C>::combine", r"Curve::plus_point$")):
+        g = getfn(ck, "rs", CB, pth)
+        if not g:
+            continue
+        rets = [(bi, si, it) for (bi, si, it) in g.defs().get(0, []) if bi in g.reachable()]
+        bad = []
+        for (bi, si, it) in rets:
+            o = set()
+            if si == "t":
+                for a in it["args"]:
+                    o |= g.origins(a, deep=True)
+            elif it["rv"].get("k") == "use":
+                o = g.origins(it["rv"]["a"], deep=True)
+            else:
+                for x in it["rv"].get("ops", []):
+                    o |= g.origins(x, deep=True)
+            if not (("arg", 1) in o and ("arg", 2) in o):
+                bad.append(bi)
+        comb = g.calls(want)
+        ck.ob("DEFUSE", pth, "result-combines-both-operands", not bad and len(rets) >= 1 and len(comb) >= 2,
+              "every returned value derives from both operands through %d component-wise combinations" % len(comb) if not bad and len(comb) >= 2 else
+              "a returned value does not derive from both operands (%d paths) or fewer than two component combinations are made (%d)" % (len(bad), len(comb)), g.loc(bad[0]) if bad else g.loc())
+
     # d. chunking constants
     c = crate("rs", CB)
     adt = c.adts.get(CB + "::encrypted_transfers::types::EncryptedAmount")
